@@ -167,3 +167,15 @@ Theorem C18_tree_roundtrip_partial : forall s,
   wf_scalar (nums s) -> load_octs (emit_octs (Scalar s)) = Some (prune (Scalar s)).
 Proof. exact tree_roundtrip_scalar. Qed.
 Print Assumptions C18_tree_roundtrip_partial.
+
+(** A finite-domain complement (NOT the unbounded statement): the model loader
+    inverts the model emitter on every one of the 34782 trees of the generated
+    family [sweep_trees] (all lists/maps of at most two entries over null and four
+    scalar styles, wrapped up to four times in lists and maps with plain and
+    literal keys: depth up to 6, block, flow, long-key and empty-container
+    layouts).  Evaluated by the kernel's [vm_compute] over the list itself. *)
+Theorem C18_tree_roundtrip_model_sweep :
+  N.of_nat (length sweep_trees) = 34782%N /\
+  forallb (fun t => wf_item t && roundtrips t) sweep_trees = true.
+Proof. exact (conj sweep_size tree_roundtrip_sweep). Qed.
+Print Assumptions C18_tree_roundtrip_model_sweep.
